@@ -377,6 +377,7 @@ let () =
         let asan = try List.assoc "asan" vf with Not_found -> "NOASAN" in
         let dbg = try List.assoc "dbg" vf with Not_found -> "?" in
         let rel = try List.assoc "rel" vf with Not_found -> "-" in
+        let dbg2 = try List.assoc "dbg2" vf with Not_found -> "-" in
         let issues =
           try List.concat_map handle_record (split ';' recs)
           with e -> [Guard ("driver-exception:" ^ Printexc.to_string e)] in
@@ -386,12 +387,12 @@ let () =
         let guards = List.filter_map (function Guard d -> Some d | _ -> None) issues in
         let model_txt = match model_bad with
           | [] -> "model=clean" | (d, _) :: _ -> "model-predicts=" ^ d in
-        if starts "ASAN" asan || starts "CRASH" asan || starts "CRASH" dbg || starts "ASAN" rel || starts "CRASH" rel then
-          Printf.printf "%s PROPFAIL memory-error asan=%s rel=%s dbg=%s %s%s\n" id asan rel dbg model_txt
+        if starts "ASAN" asan || starts "CRASH" asan || starts "CRASH" dbg || starts "ASAN" rel || starts "CRASH" rel || starts "CRASH" dbg2 then
+          Printf.printf "%s PROPFAIL memory-error asan=%s rel=%s dbg=%s dbg2=%s %s%s\n" id asan rel dbg dbg2 model_txt
             (match guards with [] -> "" | g :: _ -> " guard=" ^ g)
-        else if starts "NOTRUN" asan || starts "NOTRUN" dbg || starts "NOTRUN" rel then
+        else if starts "NOTRUN" asan || starts "NOTRUN" dbg || starts "NOTRUN" rel || starts "NOTRUN" dbg2 then
           Printf.printf "%s DIFF not-run-after-repeated-hangs-of-the-implementation\n" id
-        else if starts "HANG" asan || starts "HANG" dbg || starts "HANG" rel then
+        else if starts "HANG" asan || starts "HANG" dbg || starts "HANG" rel || starts "HANG" dbg2 then
           Printf.printf "%s DIFF implementation-did-not-terminate asan=%s rel=%s dbg=%s\n" id asan rel dbg
         else if invariants <> [] then
           Printf.printf "%s PROPFAIL %s\n" id (List.hd invariants)
